@@ -264,7 +264,7 @@ fn solver_level(rep: &Reporter, prop: &str) -> (crate::bnb::Agg, Vec<Value>, boo
     use crate::run::Cfg;
     let th = rep.thorough();
     let cfgs = Cfg::full(&[1, 2, 3]);
-    let mk = |name: &str, variants: Vec<crate::model::Variant>, rotate: bool, limit: Option<u64>| Plan { fam: family(name), variants, rotate, cfgs: cfgs.clone(), mode: Mode::Plain, record: true, limit };
+    let mk = |name: &str, variants: Vec<crate::model::Variant>, rotate: bool, limit: Option<u64>| Plan { fam: family(name), variants, rotate, cfgs: cfgs.clone(), mode: Mode::Plain, record: true, limit, par1: false };
     let plans = match prop {
         "C11" => vec![
             mk("TM-B4", variants_flat(), true, Some(if th { 16384 } else { 4000 })),
@@ -280,10 +280,12 @@ fn solver_level(rep: &Reporter, prop: &str) -> (crate::bnb::Agg, Vec<Value>, boo
             mk("TM-N2.1", variants_dom(), true, None),
             mk("TM-N3.1", variants_dom(), true, None),
             mk("KP-2", variants_kp(), false, None),
-            mk("KP-3", variants_kp(), true, None),
+            mk("KP-3", variants_kp(), false, None),
+            mk("KP-4", variants_kp(), true, None),
+            mk("KP-5", variants_kp(), true, Some(if th { 413_343 } else { 60_000 })),
         ],
     };
-    let deadline = Some(Instant::now() + Duration::from_secs(if th { 600 } else { 15 }));
+    let deadline = Some(Instant::now() + Duration::from_secs(if th { 900 } else { 35 }));
     run_plans(rep, &[prop], &plans, deadline)
 }
 
